@@ -1783,8 +1783,7 @@ class Interp:
         saved_events = len(self.events)
         saved_stats = dict(self.stats)
         if limit is None:
-            # tiny loops (a doubling / shifting search over the bits of a word) get a word's worth of iterations
-            limit = 66 if len(ctx.info.loops[h]) <= 10 else 9
+            limit = 9
         for k in range(limit):
             if not cur:
                 return exits
